@@ -250,6 +250,15 @@ Proof.
     unfold Factorized.get1, get, reshape. cbn [shape data]. rewrite Hv. f_equal. simpl. lia.
 Qed.
 
+Lemma as_matrices_id (fs : list tensor) : Forall (fun f => ndim f = 2) fs -> as_matrices fs = fs.
+Proof.
+  induction 1 as [|f fs Hf _ IH]; [reflexivity|]. cbn [as_matrices map]. fold (as_matrices fs). rewrite IH. f_equal.
+  unfold as_col. rewrite Hf. reflexivity.
+Qed.
+
+Lemma all_2d_true (fs : list tensor) : Forall (fun f => ndim f = 2) fs -> all_2d fs = true.
+Proof. intros H. unfold all_2d. apply forallb_forall. intros f Hf. rewrite Forall_forall in H. apply Nat.eqb_eq. now apply H. Qed.
+
 (* ---------- cp_to_tensor ---------- *)
 Definition cp_entry (w : option tensor) (fs : list tensor) (R : nat) (idx : list nat) : F :=
   fsumn R (fun r => wv Op w r *f prod_entries fs idx r).
@@ -260,7 +269,7 @@ Theorem cp_to_tensor_spec (w : option tensor) fs shp R :
     forall idx, inb shp idx -> get zero t idx = cp_entry w fs R idx.
 Proof.
   intros Hv H2. pose proof (valid_mats _ _ _ _ Hv H2) as Hm.
-  unfold cp_to_tensor. rewrite Hv. cbn [rbind]. cbn [fst].
+  unfold cp_to_tensor, cp_to_tensor_from. rewrite Hv. cbn [rbind]. cbn [fst]. rewrite (as_matrices_id _ H2), (all_2d_true _ H2). cbn [negb].
   destruct fs as [|fa rest]; [inversion Hm; subst; discriminate Hv|].
   inversion Hm as [|? n ? ns Hfa Hrest]; subst.
   assert (Hf0 : shape (opt_scale Op w fa) = [n; R]) by (now apply shape_opt_scale).
